@@ -301,7 +301,10 @@ def report(mod, prop, tier, seed, cases, results, problems, wall, write_evidence
             else:
                 viol_new.append((cid, v))
     # minimum observation counters: a run whose deciding monitor saw nothing is not "held"
+    unless = getattr(mod, 'MIN_OBS_UNLESS', {})      # counter -> other counter: the minimum is waived when the other counter is > 0
     for k, mn in getattr(mod, 'MIN_OBS', {}).items():
+        if k in unless and obs.get(unless[k], 0) > 0:
+            continue
         m = mn.get(tier, 1) if isinstance(mn, dict) else mn
         if obs.get(k, 0) < m:
             inconclusive.append('monitor counter %s=%d below the minimum %d for this tier' % (k, obs.get(k, 0), m))
